@@ -10,6 +10,7 @@ pub fn thread_rng() -> ThreadRng {
 
 pub trait Rng {
     fn pick(&mut self, bound: usize) -> usize;
+    fn reject(&mut self);
 }
 
 impl Rng for ThreadRng {
@@ -26,19 +27,42 @@ impl Rng for ThreadRng {
             0
         }
     }
+
+    /// the draw just made is not a legal one (it names an element that was already taken): prune the path
+    fn reject(&mut self) {
+        #[cfg(kani)]
+        kani::assume(false);
+    }
 }
 
 pub mod seq {
     use super::Rng;
 
     pub trait IteratorRandom: Iterator + Sized {
+        /// An arbitrary selection of `min(amount, len)` distinct elements in an arbitrary order: every output slot
+        /// takes the element named by a fresh arbitrary draw; a draw naming an element that is already gone is
+        /// pruned.  The element vector is only ever indexed with constants (a symbolic `swap_remove` on a heap Vec
+        /// cost 2 M symbolic-execution steps for a choice of 1 out of 2).
         fn choose_multiple<R: Rng + ?Sized>(self, rng: &mut R, amount: usize) -> Vec<Self::Item> {
-            let mut all: Vec<Self::Item> = self.collect();
-            let mut out = Vec::with_capacity(amount);
+            let mut all: Vec<Option<Self::Item>> = self.map(Some).collect();
+            let n = all.len();
+            let take = if amount < n { amount } else { n };
+            let mut out = Vec::with_capacity(take);
             let mut i = 0;
-            while i < amount && !all.is_empty() {
-                let j = rng.pick(all.len());
-                out.push(all.swap_remove(j));
+            while i < take {
+                let j = rng.pick(n);
+                let mut taken = None;
+                let mut k = 0;
+                while k < n {
+                    if k == j {
+                        taken = all[k].take();
+                    }
+                    k += 1;
+                }
+                match taken {
+                    Some(x) => out.push(x),
+                    None => rng.reject(),
+                }
                 i += 1;
             }
             out
